@@ -53,6 +53,10 @@ def base_programs(ctx, n):
             g = gen.related(rng, f[1], 'tel')
             p = p + [{'part': rng.choice(['dynamic', 'always', 'final']), 'head': ('cons',), 'body': [(rng.choice('nm'), ('tel', rng.choice([('initially', g), ('prev', None, g), ('since', None, g)])))]}]
         out.append((p, f, rng.choice(gen.PARTS)))
+    # fixed family: pending chains of next operators below past operators (the same sub-formula and state is reached again at later solving steps)
+    fam = gen.revisit_family()
+    for f in fam:
+        out.append(([{'part': 'always', 'head': ('choice', ['a', 'b']), 'body': []}], ('tel', f), 'always'))
     return out
 
 
